@@ -823,7 +823,7 @@ func TestVerifC08(t *testing.T) {
 	thorough := cfg.Tier == "thorough"
 
 	rep.Set("rule", "Four workloads over the real DiskCache, case i fixed by (tier, seed, i). "+
-		"seq: PRNG fault sequences (Put/Import from good/short/long/corrupt/erroring sources delivering whole buffers or 1-7 bytes per Read, Get, Link/Unlink/Resolve under case variants of 2 names, 3-5 blobs with frequent equal sizes) checked after every operation against the sequential specification, then a good Put of every blob; non-trivial = at least one write really failed and a Link/Unlink/Resolve ran; distinct by (fault kinds, operation-kind sequence, same-size relink seen). "+
+		"seq: PRNG fault sequences (Put/Import from good/short/long/corrupt/erroring sources delivering whole buffers or 1-7 bytes per Read, Get, Link/Unlink/Resolve and hand edits of the manifest file under case variants of 2 names, 3-5 blobs with frequent equal sizes; in half of the cases blob contents are proper prefixes / +newline / +bytes extensions / same-length variants of one another) checked after every operation against the sequential specification, then a good Put of every blob; non-trivial = at least one write really failed and a Link/Unlink/Resolve ran; distinct by (fault kinds, operation-kind sequence, same-size relink seen). "+
 		"crash: ENUMERATED (size, b) for every b in 0..size: a child process runs one Put and its source SIGKILLs the process after b delivered bytes (good and corrupt sources), plus the testHookBeforeFinalWrite point, plus (strace) the point before the first ftruncate of a failing write, plus Import; on top of debris of earlier really-crashed attempts or a planted longer file; non-trivial = the child was observed to die by SIGKILL at the requested point; distinct by (class, op, source kind, size, b, debris). "+
 		"sched2: ENUMERATED every interleaving of the gated steps of 2 writers of one digest (k = 1..4 chunks each; good x {good, short@j, err@j, corrupt@j, long, long-straddle}, Import x {good, Import, err, corrupt} for k<=3 and a fixed list of bad x bad pairs), blob observed after every step; schedN: PRNG-sampled interleavings of 3-4 such writers; non-trivial = at least two writers were active at the same time (one started before another finished); distinct by (writer specs, step order). "+
 		"hist: free-running goroutines (2-4) issue Put/Import/Get/Link/Unlink/Resolve, the call/return history is checked with porcupine per digest and per case-folded name; non-trivial = some partition contains two operations that overlap in logical time; distinct by the multiset of overlapping operation-kind pairs and the per-goroutine operation kinds.")
